@@ -51,7 +51,23 @@ func GenConvs(r *rand.Rand, o ScriptOpts) []Conv {
 			continue
 		}
 		c := Conv{Client: netip.MustParseAddr(pool[ci]), Server: netip.MustParseAddr(pool[si])}
-		switch k := r.Intn(12); {
+		switch k := r.Intn(14); {
+		case k >= 12:
+			// client port BELOW the service port, both fixed (DHCPv6 546->547, 1000->2000, two ephemeral
+			// ports 40000->50000, non-ephemeral towards ephemeral): the stored key's source port is
+			// lower than its destination port, which sends goProbe through its "probably reverse" lookup
+			// path. Orientation is not demanded for these (only conservation per pair).
+			c.Kind, c.Proto, c.Decisive = "lowclient", []uint8{6, 17}[r.Intn(2)], false
+			pp := [][2]uint16{{546, 547}, {1000, 2000}, {137, 138}, {40000, 50000}, {1000, 40000}, {68, 67}}[r.Intn(6)]
+			c.CPort, c.SPort = pp[0], pp[1]
+			if r.Intn(3) == 0 { // towards a multicast / broadcast group (one direction only)
+				c.Kind, c.Proto = "lowclient_multicast", 17
+				if v6 {
+					c.Server = netip.MustParseAddr("ff02::1:2")
+				} else {
+					c.Server = netip.MustParseAddr("255.255.255.255")
+				}
+			}
 		case k < 3:
 			c.Kind, c.Proto, c.Decisive = "common", 6, true
 			c.SPort = commonTCP[r.Intn(len(commonTCP))]
@@ -123,6 +139,8 @@ func NextPacket(r *rand.Rand, convs []Conv, ci int) Pkt {
 		cport = c.SPort + 1 + uint16(r.Intn(int(65535-c.SPort)))
 	case "multicast":
 		cport = ephemeral(r)
+		fromClient = true
+	case "lowclient_multicast":
 		fromClient = true
 	}
 	if fromClient {
